@@ -97,7 +97,7 @@ def random_meas(rng, n):
     ("dm", wires) | ("purity", wires) | ("vn", wires) | ("mi", w0, w1) | ("ham", [(coeff dyadic, word)])"""
     out = []
     for _ in range(rng.randint(1, 3)):
-        k = rng.choice(["expval", "expval", "var", "probs", "probs", "dm", "purity", "vn", "mi", "ham", "probs_all"])
+        k = rng.choice(["expval", "expval", "var", "probs", "probs", "dm", "purity", "vn", "mi", "ham", "probs_all", "hexp", "hvar"])
         if k in ("expval", "var"):
             pw = [rng.randint(0, 3) for _ in range(n)]
             if not any(pw):
@@ -112,6 +112,11 @@ def random_meas(rng, n):
         elif k == "mi" and n >= 2:
             ws = rng.sample(range(1, n + 1), 2)
             out.append(("mi", [ws[0]], [ws[1]]))
+        elif k in ("hexp", "hvar"):
+            q = rng.randint(1, min(2, n))
+            ws = rng.sample(range(1, n + 1), q)
+            a = np.array([[complex(rng.randint(-3, 3), rng.randint(-3, 3)) for _ in range(1 << q)] for _ in range(1 << q)]) / 4
+            out.append((k, ws, (a + a.conj().T).tolist()))
         elif k == "ham":
             terms = []
             for _ in range(rng.randint(2, 3)):
@@ -150,6 +155,9 @@ def pl_measurements(meas, labels):
             out.append(qp.mutual_info(wires0=[labels[w - 1] for w in m[1]], wires1=[labels[w - 1] for w in m[2]]))
         elif k == "ham":
             out.append(qp.expval(qp.dot([c for c, _ in m[1]], [word_op(pw, labels) for _, pw in m[1]])))
+        elif k in ("hexp", "hvar"):
+            obs = qp.Hermitian(np.array(m[2]), wires=[labels[w - 1] for w in m[1]])
+            out.append(qp.expval(obs) if k == "hexp" else qp.var(obs))
     return out
 
 
@@ -217,6 +225,11 @@ def expected_values(meas, res, n):
         elif k == "mi":
             a, b = m[1], m[2]
             out.append(entropy(reduced_dm(psi, a, n)) + entropy(reduced_dm(psi, b, n)) - entropy(reduced_dm(psi, a + b, n)))
+        elif k in ("hexp", "hvar"):
+            rho = reduced_dm(psi, m[1], n)
+            Hm = np.array(m[2])
+            e1 = float(np.real(np.trace(rho @ Hm)))
+            out.append(e1 if k == "hexp" else float(np.real(np.trace(rho @ Hm @ Hm))) - e1 * e1)
     return out
 
 
